@@ -425,7 +425,7 @@ static bool checkHull(HullCtx& h, const Manifold& hull) {
   // the families that contain exactly (or to rounding) collinear triples on the hull boundary by construction share
   // one key class: the open QuickHull finding (garbage plane of a face through three collinear points) is keyed on it,
   // every other family keeps its own name (the family is always in the witness detail)
-  for (const char* f : {"rings", "rulings", "lattice-block", "simplex-lattice", "cube-surface", "manifolds+refined-copy"})
+  for (const char* f : {"rings", "rulings", "lattice-block", "simplex-lattice", "cube-surface", "manifolds+refined-copy", "manifolds+boolean-leaf"})
     if (base == f) base = "collinear-by-construction";
   const std::string fam = (cl.regime == 2 ? "degen:" : cl.regime == 1 ? "thin:" : "thick:") + h.via + ":" + base;
   c.count("hulls_observed");
@@ -507,6 +507,25 @@ static bool checkHull(HullCtx& h, const Manifold& hull) {
   LD scale = 0;
   for (auto& q : in) scale = std::max({scale, (LD)std::fabs(q.x), (LD)std::fabs(q.y), (LD)std::fabs(q.z)});
   const LD epsHull = 1e-7L * scale;
+  // (3b) consequence of "vertices are input points" + "contains every input point within epsilon": the two
+  // bounding boxes agree within the decision threshold (catches a whole operand or a whole side being left out)
+  {
+    V3 ilo{1e300L, 1e300L, 1e300L}, ihi{-1e300L, -1e300L, -1e300L};
+    for (auto& q : in) {
+      ilo = {std::min(ilo.x, (LD)q.x), std::min(ilo.y, (LD)q.y), std::min(ilo.z, (LD)q.z)};
+      ihi = {std::max(ihi.x, (LD)q.x), std::max(ihi.y, (LD)q.y), std::max(ihi.z, (LD)q.z)};
+    }
+    const LD tb = 10 * epsHull * (1 + 1e-6L);
+    LD worst = std::max({s.lo.x - ilo.x, s.lo.y - ilo.y, s.lo.z - ilo.z, ihi.x - s.hi.x, ihi.y - s.hi.y, ihi.z - s.hi.z});
+    c.count("bounding_boxes_compared");
+    if (worst > tb) {
+      c.violation("hull:bounding-box-smaller-than-inputs:" + fam,
+                  hullDetail(h, "an axis-extreme input point is farther than 10 eps_hull outside the hull's bounding box",
+                             vh::J().d("shortBy", (double)worst).d("eps_hull", (double)epsHull).raw("inputMin", p3(ilo)).raw("inputMax", p3(ihi))
+                                 .raw("hullMin", p3(s.lo)).raw("hullMax", p3(s.hi)).str(), &m));
+      return false;
+    }
+  }
   long long degenerate = 0;
   std::vector<Face> F = makeFaces(s, degenerate);
   c.count("faces_without_plane_skipped", degenerate);
@@ -704,8 +723,10 @@ static void hullCase(vh::Ctx& c) {
     return;
   }
   // Manifold inputs: input points are the vertices of the (eagerly exported) operands
+  bool hasBooleanLeaf = false;  // a Boolean result has new vertices exactly on the edges / faces of its operands
   auto leaf = [&](std::string& desc) -> Manifold {
     int k = r.range(0, 6);
+    if (k == 5) hasBooleanLeaf = true;
     Manifold m;
     switch (k) {
       case 0: { vec3 s(r.uni(0.2, 2), r.uni(0.2, 2), r.uni(0.2, 2)); m = Manifold::Cube(s, r.chance(0.5)); desc += "Cube" + p3(s); break; }
@@ -751,7 +772,7 @@ static void hullCase(vh::Ctx& c) {
     for (size_t i = 0; i < g.vertProperties.size(); i += g.numProp)
       cl.p.push_back({g.vertProperties[i], g.vertProperties[i + 1], g.vertProperties[i + 2]});
   }
-  cl.fam = count == 1 ? "one-manifold" : withRefinedCopy ? "manifolds+refined-copy" : "several-manifolds";
+  cl.fam = withRefinedCopy ? "manifolds+refined-copy" : hasBooleanLeaf ? "manifolds+boolean-leaf" : count == 1 ? "one-manifold" : "several-manifolds";
   cl.xf = "";
   HullCtx h{c, cl, count == 1 ? "manifold" : "manifolds", desc};
   Manifold hull;
